@@ -61,7 +61,7 @@ class DigestSuite(Suite):
                    "enzyme_name": name}
 
         # proteins longer than 256 residues (the median human protein has about 400): every mode, two enzymes, ends in a cleavage residue or not
-        for n in ([257, 300] if tier != "thorough" else [257, 258, 300, 400]):
+        for n in ([257, 300] if tier != "thorough" else [257, 258, 300]):
             for mode in MODES:
                 for name in ("trypsin", "asp-n"):
                     e = table[name]
